@@ -10,6 +10,7 @@ import (
 	"os"
 	"path/filepath"
 	"runtime"
+	"strconv"
 	"strings"
 	"sync"
 	"testing"
@@ -137,7 +138,7 @@ func c15Doc(c c15Case) (text string, cleanup func(), err error) {
 		dir = d
 		cleanup = func() { os.RemoveAll(dir) }
 		for i := 0; i < c15BodyFiles; i++ {
-			if err := os.WriteFile(filepath.Join(dir, fmt.Sprintf("b%d", i)), []byte(fmt.Sprintf("file-%d", i)), 0o644); err != nil {
+			if err := os.WriteFile(filepath.Join(dir, c14BodyName(strconv.Itoa(i))), []byte(fmt.Sprintf("file-%d", i)), 0o644); err != nil {
 				return "", cleanup, err
 			}
 		}
@@ -151,7 +152,7 @@ func c15Doc(c c15Case) (text string, cleanup func(), err error) {
 				fmt.Fprintf(&doc, "X-H%d: v%d-%d%s\n", h, h, i, pad)
 			}
 			if c.Bodies {
-				fmt.Fprintf(&doc, "@%s\n", filepath.Join(dir, fmt.Sprintf("b%d", i%c15BodyFiles)))
+				fmt.Fprintf(&doc, "@%s\n", filepath.Join(dir, c14BodyName(strconv.Itoa(i%c15BodyFiles))))
 			}
 			if !(c.Compact && (c.Headers == 0 || c.Bodies)) {
 				doc.WriteString("\n")
@@ -604,7 +605,7 @@ func runC15BadBody(c c15BadBody) error {
 	defer os.RemoveAll(dir)
 	content := func(f int) string { return fmt.Sprintf("body of file %d %s", f, strings.Repeat("*", f*7)) }
 	for f := 0; f < c.Files; f++ {
-		if err := os.WriteFile(filepath.Join(dir, fmt.Sprintf("b%d", f)), []byte(content(f)), 0o644); err != nil {
+		if err := os.WriteFile(filepath.Join(dir, c14BodyName(strconv.Itoa(f))), []byte(content(f)), 0o644); err != nil {
 			return err
 		}
 	}
@@ -618,7 +619,7 @@ func runC15BadBody(c c15BadBody) error {
 		switch {
 		case r < 0:
 		case r < c.Files:
-			fmt.Fprintf(&doc, "@%s\n", filepath.Join(dir, fmt.Sprintf("b%d", r)))
+			fmt.Fprintf(&doc, "@%s\n", filepath.Join(dir, c14BodyName(strconv.Itoa(r))))
 		case r == c.Files:
 			fmt.Fprintf(&doc, "@%s\n", filepath.Join(dir, "missing"))
 			unreadable++
